@@ -16,16 +16,19 @@ pub struct Case {
     pub ty: Ty,
     pub shapes: Vec<MShape>,
     pub ndev: u8,
+    /// finalize placements: bit 0 before the first write, bit i after the i-th write
+    pub fin_mask: u32,
 }
 
 impl Case {
     pub fn to_json(&self) -> Value {
-        json!({"ty": self.ty.name(), "ndev": self.ndev, "shapes": self.shapes.iter().map(|s| s.to_json()).collect::<Vec<_>>()})
+        json!({"ty": self.ty.name(), "ndev": self.ndev, "fin_mask": self.fin_mask, "shapes": self.shapes.iter().map(|s| s.to_json()).collect::<Vec<_>>()})
     }
     pub fn from_json(v: &Value) -> Option<Case> {
         Some(Case {
             ty: Ty::from_name(v.get("ty")?.as_str()?)?,
             ndev: v.get("ndev")?.as_u64()? as u8,
+            fin_mask: v.get("fin_mask").and_then(|x| x.as_u64()).unwrap_or(0) as u32,
             shapes: v.get("shapes")?.as_array()?.iter().map(MShape::from_json).collect::<Option<Vec<_>>>()?,
         })
     }
@@ -35,6 +38,7 @@ impl Case {
         for s in &self.shapes {
             s.hash_into(&mut h);
         }
+        h.u64(self.fin_mask as u64);
         h.finish()
     }
 }
@@ -53,8 +57,14 @@ pub fn observe(case: &Case) -> Obs {
     let d = Dev::quiet(vec![]);
     {
         let mut w = ShapeWriter::new(d.clone());
-        for s in &libs {
+        if case.fin_mask & 1 != 0 {
+            w.finalize().expect("finalize");
+        }
+        for (i, s) in libs.iter().enumerate() {
             write_shape(&mut w, s).expect("write");
+            if i < 31 && case.fin_mask & (1 << (i + 1)) != 0 {
+                w.finalize().expect("finalize");
+            }
         }
     }
     let shp = d.data();
@@ -247,7 +257,7 @@ struct Unit {
 fn enumerate(u: &Unit, ctx: &mut Ctx, tick: &dyn Fn()) {
     let ty = u.ty;
     let mut go = |shapes: Vec<MShape>, ndev: u8, ctx: &mut Ctx| {
-        run_case(&Case { ty, shapes, ndev }, ctx);
+        run_case(&Case { ty, shapes, ndev, fin_mask: 0 }, ctx);
         tick();
     };
     go(u.base.clone(), 0, ctx);
@@ -271,6 +281,23 @@ fn enumerate(u: &Unit, ctx: &mut Ctx, tick: &dyn Fn()) {
                     apply(&mut sh, *s, e);
                 }
                 go(sh, 1, ctx);
+            }
+        }
+    }
+    if u.base.len() >= 2 {
+        // every finalize placement, the extreme of every dimension in each shape in turn
+        for pos in 0..u.base.len() {
+            let mut sh = u.base.clone();
+            for d in 0..4 {
+                if ty.dims()[d] {
+                    sh[pos].parts[0].pts[0][d] = 9.0e5 + d as f64;
+                    let other = (pos + 1) % sh.len();
+                    sh[other].parts[0].pts[0][d] = -9.0e5 - d as f64;
+                }
+            }
+            for mask in 1u32..(1 << (u.base.len() + 1)) {
+                run_case(&Case { ty, shapes: sh.clone(), ndev: 2, fin_mask: mask }, ctx);
+                tick();
             }
         }
     }
@@ -329,6 +356,7 @@ fn selftest() -> (u64, u64) {
         ty,
         shapes: vec![red[0].clone(), red[1].clone()],
         ndev: 0,
+        fin_mask: 0,
     };
     if !judge(&case, &observe(&case)).is_empty() {
         return (1, 0);
@@ -404,7 +432,7 @@ pub fn check(tier: Tier) -> i32 {
                 shapes[last - 1].parts[0].pts[0][d] = -7.0e6 - d as f64;
             }
         }
-        run_case(&Case { ty, shapes, ndev: 2 }, ctx);
+        run_case(&Case { ty, shapes, ndev: 2, fin_mask: if n % 7 == 0 { 1 << 3 } else { 0 } }, ctx);
     };
     let (agg, capped) = par_blocks(total_units, Some(started + std::time::Duration::from_secs(tier.pick(50, 1500))), |b, ctx, tick| {
         if b < n_struct {
@@ -423,7 +451,7 @@ pub fn check(tier: Tier) -> i32 {
             tier,
             level: "model_checking",
             engine: "E2 structure x extreme-value placement enumerator; oracle = independent numeric min/max fold + RefCodec for stored boxes and header bytes",
-            rule: "13 types x structures (1-3 parts, 1-5 vertices) and sequences of 2-3 shapes x {no deviation; one slot x every value of F_xy; a whole dimension set to one value of F_xy; every ordered pair of distinct slots of one dimension x low x high values; every pair with values one ulp apart; all vertices identical}; plus files of EVERY record count 4..=bound with the minimum in the last-but-one and the maximum in the last record; non-trivial = >=1 deviation or >=2 shapes",
+            rule: "13 types x structures (1-3 parts, 1-5 vertices) and sequences of 2-3 shapes x {no deviation; one slot x every value of F_xy; a whole dimension set to one value of F_xy; every ordered pair of distinct slots of one dimension x low x high values; every pair with values one ulp apart; all vertices identical; sequences of 2-3 shapes with every finalize placement and the extremes in each shape in turn}; plus files of EVERY record count 4..=bound with the minimum in the last-but-one and the maximum in the last record; non-trivial = >=1 deviation or >=2 shapes",
             bounds: json!({"units": units.len(), "f_xy": f_xy().len(), "lows": lows().len(), "highs": highs().len(), "pair_scope_max_points": tier.pick(6, 9)}),
             exhaustive: true,
             assumptions: vec![
